@@ -67,7 +67,7 @@ def run_stage(prop, workdir, thorough=False, regenerate=True):
         changed = regen()
     names = theorems_of(prop)
     target = f"Efp.Props.{prop}"
-    cmd = ["lake", "build", target]
+    cmd = ["lake", "build", "Efp.Models", target]
     p = subprocess.run(cmd, cwd=LEAN_DIR, capture_output=True, text=True, timeout=3000)
     build_ok = p.returncode == 0
     log = (p.stdout + p.stderr)[-6000:]
